@@ -3,7 +3,9 @@ package c18
 import (
 	"context"
 	"fmt"
+	"github.com/form3tech-oss/f1/v2/verifharness/vlib"
 	"sync"
+	"sync/atomic"
 	"testing"
 	"time"
 
@@ -254,4 +256,36 @@ func TestProp_NoStepBackWithoutRestart(t *testing.T) {
 			}
 		}
 	})
+}
+
+// TestLong_StopWaitsForASlowFunction: "for every function duration" - a function that is still
+// executing seconds after Stop was called (a wedged output stream). Stop returns only when it has
+// finished, however long that takes: 6 s here in the quick tier, 35 s in the thorough one.
+func TestLong_StopWaitsForASlowFunction(t *testing.T) {
+	d := time.Duration(vlib.ByTier(6, 35)) * time.Second
+	var executing atomic.Int32
+	entered := make(chan struct{})
+	var once sync.Once
+	fn := func(time.Duration) {
+		executing.Add(1)
+		once.Do(func() { close(entered) })
+		time.Sleep(d)
+		executing.Add(-1)
+	}
+	r, err := raterun.New(fn, []raterun.Schedule{{StartDelay: 0, Frequency: 5 * time.Millisecond}})
+	if err != nil {
+		t.Fatalf("VERIF-INFRA: %v", err)
+	}
+	r.Start(context.Background())
+	<-entered
+	called := time.Now()
+	r.Stop()
+	waited := time.Since(called)
+	running := executing.Load()
+	stats.Case("slow-function", d.String(), true, []string{}, func() any {
+		return map[string]any{"function_duration": d.String(), "stop_returned_after": waited.String()}
+	})
+	if running != 0 {
+		t.Fatalf("VERIF-VIOLATION C18: Stop returned %s after it was called while the function (which takes %s) was still executing", waited.Round(time.Millisecond), d)
+	}
 }
